@@ -95,6 +95,7 @@ type mFile struct {
 	left    [][2]int64 // what must be emitted
 	emitted [][2]int64 // what has been emitted
 	young   bool
+	passed  bool // placeholder already passed in the chain
 }
 
 func (f *mFile) sendSize() int64 {
@@ -120,6 +121,7 @@ type mGroup struct {
 	completed []string // completion order (emitted completely)
 	doneSet   map[string]bool
 	phSet     map[string]bool // placeholders pushed (already sent)
+	everSeen  map[string]*mFile
 	sawRecov  bool            // any Recovered file pushed into this group
 	lostChain bool            // the sole half-emitted head was re-pushed (see DESIGN, finding Q1)
 	served    int
@@ -260,12 +262,13 @@ func runQueue(t *vt.T, p profile) {
 				g := m.groups[gname]
 				if g == nil {
 					g = &mGroup{name: gname, tag: tagByName[groupTag[gname]], files: map[string]*mFile{},
-						doneSet: map[string]bool{}, phSet: map[string]bool{}}
+						doneSet: map[string]bool{}, phSet: map[string]bool{}, everSeen: map[string]*mFile{}}
 					m.groups[gname] = g
 					m.order = append(m.order, gname)
 				}
 				prios[g.tag.Priority] = true
 				mf := &mFile{name: name, tm: tm, size: size, seq: m.seq, kind: kind, young: young}
+				g.everSeen[name] = mf
 				m.seq++
 				h := hfile{name: name, size: size, tm: tm, hash: fmt.Sprintf("h%d", mf.seq)}
 				var file sts.Hashed
@@ -350,6 +353,25 @@ func runQueue(t *vt.T, p profile) {
 			g := m.groups[gn]
 			if g.ready(g.tag.LastDelay) {
 				ready[gn] = true
+			}
+		}
+		lastStripped := ""
+		if nGroups == 1 {
+			// every Pop scans the only group and strips fully allocated
+			// entries from the head of its list as long as they have a successor
+			for _, g := range m.groups {
+				var l []*mFile
+				for _, f := range g.files {
+					if f.pending() || (f.kind == kPlaceholder && !f.passed) {
+						l = append(l, f)
+					}
+				}
+				sort.Slice(l, func(i, j int) bool { return less(g.tag.Order, l[i], l[j]) })
+				for len(l) >= 2 && l[0].kind == kPlaceholder {
+					l[0].passed = true
+					lastStripped = l[0].name
+					l = l[1:]
+				}
 			}
 		}
 		c := q.Pop()
@@ -470,7 +492,23 @@ func runQueue(t *vt.T, p profile) {
 							t.Violation("prev-not-most-recent", "%s announces %q, most recently completed file of the group is %q", c.GetName(), prev, want)
 						}
 					}
+				} else if lastStripped != "" && g.tag.Order != sts.OrderNone && prev != lastStripped && lastStripped != mf.name {
+					t.Violation("prev-skips-file-queued-as-already-sent", "%s announces %q although %q, queued as already sent, was passed immediately before it: the chain skips it", c.GetName(), prev, lastStripped)
+				} else if pf := g.everSeen[prev]; prev != "" && pf != nil && g.tag.Order != sts.OrderNone && nGroups == 1 {
+					// after a restart: the chain continues through the files
+					// queued as already sent; none of them may be skipped
+					for _, x := range g.everSeen {
+						if x.kind == kPlaceholder && !x.passed && x.name != prev && x.name != mf.name && less(g.tag.Order, pf, x) && less(g.tag.Order, x, mf) && g.files[x.name] == x {
+							t.Violation("prev-skips-file-queued-as-already-sent", "%s announces %q although %q, queued as already sent, lies between them in the tag's order: the chain skips it", c.GetName(), prev, x.name)
+						}
+					}
 				}
+			}
+		}
+		// placeholders sorting before a file that has been popped are behind us
+		for _, x := range g.everSeen {
+			if x.kind == kPlaceholder && less(g.tag.Order, x, mf) {
+				x.passed = true
 			}
 		}
 		if !mf.pending() {
